@@ -32,6 +32,11 @@ func init() {
 }
 
 func runC17(c *Ctx) {
+	driverRule(c, "C17.R6", []string{"clusterState).CompactLocal"})
+	facadeRule(c, "C17.R6", []facadeSpec{
+		{gsPkg, "Gossip.UpsertLocal", "clusterState).UpsertLocal", "", false},
+		{gsPkg, "Gossip.DeleteLocal", "clusterState).DeleteLocal", "", false},
+	})
 	g := newGossipAnchors(c.P)
 	if !g.ok {
 		c.fail("C17.anchor", "pkg/gossip state types", token.NoPos, "unresolved:"+g.missing)
